@@ -109,25 +109,25 @@ T('C07',
 # phases added after the seeded-change waves (DESIGN.md 9.3 / 9.5): appended to the level text
 ADDED = {
     'C01': 'History phase: every sequence (depth 2, thorough 3) of parameter updates, spectral-window requests, paired updates and first evaluations through model_contrib / model_full_contrib on one live model against a fresh model built from the net settings; large spectral grids (65537-262145 points); integer wavenumber axes; extended atmospheres. A licence-boundary phase (a grey user source at exactly tau = 10, +-1 ulp, before / after the absorption). Rejected states inside histories (the history continues); a star smaller than the planet.',
-    'C02': 'History phase as for C01 (incl. stellar parameters, windows, per-source entry points, numpy-scalar values); every source and component alone against the same integral; quadrature set on the built model; integer wavenumber axes. Rejected states inside histories; a 2e5 K star.',
-    'C03': 'Also: correlated-k mode for every insertion order, sources added after build(), tabulated compositions that do not sum to one, H- invariants, all entry points on the same requested grid. Collision pairs appended to / assigned on default-constructed sources; two sources of one built-in kind in one model. Error rounds (every entry point refuses, then the usual checks).',
-    'C04': 'Also: single-node axes, tables of 40001-140003 spectral points, integer axes and integer arguments, descending / shuffled wavenumber requests, a twin table with equal axis summaries alive in the process, mode switches on the live object. Every two-significant-digit pressure (Pa and bar) as bottom / middle / top node of the pressure axis with the temperature below, on, inside and above its axis. A k-table exposed as a non-contiguous transposed view.',
-    'C05': 'Also: reuse sequences on one live binner (equal-summary native grids), integer target grids, list / tuple / scalar native widths, bin_model in every native order. Descending target grids for the histogram binner.',
+    'C02': 'History phase as for C01 (incl. stellar parameters, windows, per-source entry points, numpy-scalar values); every source and component alone against the same integral; quadrature set on the built model; integer wavenumber axes. Rejected states inside histories; a 2e5 K star. 101 and 128 emission angles.',
+    'C03': 'Also: correlated-k mode for every insertion order, sources added after build(), tabulated compositions that do not sum to one, H- invariants, all entry points on the same requested grid. Collision pairs appended to / assigned on default-constructed sources; two sources of one built-in kind in one model. Error rounds (every entry point refuses, then the usual checks). A collision pair with an absorbing partner.',
+    'C04': 'Also: single-node axes, tables of 40001-140003 spectral points, integer axes and integer arguments, descending / shuffled wavenumber requests, a twin table with equal axis summaries alive in the process, mode switches on the live object. Every two-significant-digit pressure (Pa and bar) as bottom / middle / top node of the pressure axis with the temperature below, on, inside and above its axis. A k-table exposed as a non-contiguous transposed view. Pressure rows thirty decades apart; a request array refilled in place.',
+    'C05': 'Also: reuse sequences on one live binner (equal-summary native grids), integer target grids, list / tuple / scalar native widths, bin_model in every native order. Descending target grids for the histogram binner. Eight decades per native point; native bins 3.5 times as wide as their spacing.',
     'C06': 'Also: an observation-owned fitted parameter, priors registered on unfitted parameters, extreme error bars, a broad band inside narrow bins, observation replaced on a live optimiser. An end bin far narrower than the native spacing. Two bins sharing a centre.',
-    'C07': 'Also: writes from outside the optimiser between updates, differently capitalised and invalid mode names, numpy vectors. Observations exposing only a derived or only a fitted parameter; mutual agreement of the views between a settings change and the next compile_params. What write_optimizer / write_fit store against the reported set-up; user-defined prior classes overriding prior().',
+    'C07': 'Also: writes from outside the optimiser between updates, differently capitalised and invalid mode names, numpy vectors. Observations exposing only a derived or only a fitted parameter; mutual agreement of the views between a settings change and the next compile_params. What write_optimizer / write_fit store against the reported set-up; user-defined prior classes overriding prior(). A user-defined forward model registering parameters after the base constructor.',
     'C08': 'Also: integer bounds and integer values, explicit plus signs in prior text, observation-owned default priors, live priors re-bounded after sampling. User priors on parameters whose mode and bounds give no default; bounds and means at 1e-300 / 1e300.',
-    'C09': 'Also: repeated trace values with a tie-order hull oracle, a most probable sample with a zero coordinate. 11-13 modes / clusters, a non-default MultiNest file prefix next to an earlier run\'s files, stored per-source spectra at the MAP.',
-    'C10': 'Also: species-name phase (names differing by case only, bracket groups, two-digit counts), integer ratios, deactivated molecules, history phase with requested-value oracle, state after a rejection. Opacity data for every gas incl. the fill gases; every fill list x every pair of trace profiles. Neighbouring deactivated molecules.',
+    'C09': 'Also: repeated trace values with a tie-order hull oracle, a most probable sample with a zero coordinate. 11-13 modes / clusters, a non-default MultiNest file prefix next to an earlier run\'s files, stored per-source spectra at the MAP. Gaussian / log-Gaussian priors with samples in the tails; light / lighter output sizes.',
+    'C10': 'Also: species-name phase (names differing by case only, bracket groups, two-digit counts), integer ratios, deactivated molecules, history phase with requested-value oracle, state after a rejection. Opacity data for every gas incl. the fill gases; every fill list x every pair of trace profiles. Neighbouring deactivated molecules. Two-layer boundaries sharper than two layers; tabulated compositions (also square).',
     'C11': 'Also: every length unit of the planet integration, integer temperatures, history phase (paired mass / radius updates, per-source entry points). File columns / header lines that differ; the pressure range moved to a disjoint one in either order. Temperatures tabulated on their own pressure points (also top-down).',
-    'C12': 'Also: history phase per profile family (setter sequences, re-initialisation on other grids, planet updates), numpy-scalar and integer controls, negative interior nodes. Channel weights outside [0, 1] in histories; fresh profile built from constructor arguments. Every state read twice; two interior nodes; deeper small alphabets through rejected states.',
+    'C12': 'Also: history phase per profile family (setter sequences, re-initialisation on other grids, planet updates), numpy-scalar and integer controls, negative interior nodes. Channel weights outside [0, 1] in histories; fresh profile built from constructor arguments. Every state read twice; two interior nodes; deeper small alphabets through rejected states. Orientation of node-based profiles.',
     'C13': 'Also: reuse sequences on one live model, near-coincident (ppm) grids, narrow second tables, CIA on its own grid, an opaque band, per-source entry points on restricted grids. Per-source calls with the full / restricted roles of the two models switched.',
-    'C14': 'Also: directory-change histories (files appearing between requests, private directory per history), molecule names contained in one another, list-valued search paths, dotted directories, Exo-Transmit block orders. Touching HITRAN ranges, hand-added objects of the other interpolation mode, deuterated file names. Python-2 pickles (small and several read buffers long).',
-    'C15': 'Also: [Fitting] sections applied to a live optimiser (every option subset), ready-made components handed to generate_model, stacked plugin mixins and plugin registration of every family, observation x binning on the command line incl. taurex_spectrum = self, second generation from one parser. Numeric keys set to zero (constructor refusals judged against the library call). Layering under [Model] without [Pressure] on the command line; a mixin sharing a keyword with its base.',
-    'C16': 'Also: second and third outputs on one binner, stored per-source contributions (full and reduced size), a bystander model of the same classes alive during write / reload, active fill gases, TAB-delimited files. Bin edges on native points; a source without components. A refused write followed by a valid write to the same open output.',
+    'C14': 'Also: directory-change histories (files appearing between requests, private directory per history), molecule names contained in one another, list-valued search paths, dotted directories, Exo-Transmit block orders. Touching HITRAN ranges, hand-added objects of the other interpolation mode, deuterated file names. Python-2 pickles (small and several read buffers long). HITRAN third column; HDF5 tables above 8 MiB.',
+    'C15': 'Also: [Fitting] sections applied to a live optimiser (every option subset), ready-made components handed to generate_model, stacked plugin mixins and plugin registration of every family, observation x binning on the command line incl. taurex_spectrum = self, second generation from one parser. Numeric keys set to zero (constructor refusals judged against the library call). Layering under [Model] without [Pressure] on the command line; a mixin sharing a keyword with its base. makefree+file with gas sub-sections against the library construction.',
+    'C16': 'Also: second and third outputs on one binner, stored per-source contributions (full and reduced size), a bystander model of the same classes alive during write / reload, active fill gases, TAB-delimited files. Bin edges on native points; a source without components. A refused write followed by a valid write to the same open output. Native points handed over in two ascending blocks.',
     'C17': 'Also: integer-typed arrays, right-aligned text files, independence of the input buffer, model grids that stop short of or coincide with the observation. Three rows of four columns. HDF5 files carrying binned_* and native_* next to instrument_*.',
     'C18': 'Also: posteriors of 9-40 samples, a condensate-reporting chemistry, combined statistics asked twice, tied derived values, weight ratios of 1e-20. Everything stored next to the standard deviations equals the single-process run. The real taurex.mpi collectives over a stand-in mpi4py (lists up to 2500 items); NaN elements; 5-16 ranks.',
-    'C19': 'Also: history phase (incl. hazes constructed with inverted bounds, windows, entry points; fresh model built from constructor arguments), hazes alone through both per-source entry points, one-layer atmospheres, late-added deck, integer pressure arrays. Nested and adjoining haze windows (every pair / triple of a lattice of bounds).',
-    'C20': 'Also: history phase in correlated-k mode incl. k-tables replaced under a live model, second molecules on differently spaced / shorter tables, descending k-distributions, haze contributions, zero-abundance first gas. Interpolation mode \'exp\', single-precision k-table files, non-absorption sources alone in both opacity modes. Quadrature points listed in descending order in the files.',
+    'C19': 'Also: history phase (incl. hazes constructed with inverted bounds, windows, entry points; fresh model built from constructor arguments), hazes alone through both per-source entry points, one-layer atmospheres, late-added deck, integer pressure arrays. Nested and adjoining haze windows (every pair / triple of a lattice of bounds). Flat hazes on a grid of alternating narrow and wide layers.',
+    'C20': 'Also: history phase in correlated-k mode incl. k-tables replaced under a live model, second molecules on differently spaced / shorter tables, descending k-distributions, haze contributions, zero-abundance first gas. Interpolation mode \'exp\', single-precision k-table files, non-absorption sources alone in both opacity modes. Quadrature points listed in descending order in the files. Large spectral grids (2500-5000, thorough 70001 points) in correlated-k mode for all model kinds; a source opaque at one wavenumber before the absorption.',
 }
 
 
